@@ -228,7 +228,16 @@ def doIndex (fmt vfmt : Fmt) (fb : Rat) (docs : List DocIn) : String :=
   let vecs := docs.map fun d =>
     s!"({d.docnum} {fieldLength fmt d.toks} {showList (fun x => s!"({stringToHex x.1} {showPSpec x.2})")
       (specVector vfmt fb d.toks)})"
-  s!"(postings {" ".intercalate posts}) (docs {" ".intercalate vecs})"
+  -- the executable model of the documents → pool → add_postings path and of the vector items
+  -- must agree with Layer S on every term / document of this request (theorems
+  -- `term_postings_spec`, `vector_items`, evaluated)
+  let modelOk := terms.all (fun w =>
+      (termPostings id fmt fb docs w).map (fun p => (p.docnum, p.weight))
+        == (specPostings fmt fb docs w).map (fun x => (x.1, x.2.weight))) &&
+    docs.all (fun d =>
+      (vectorItems id vfmt fb d.toks).map (fun x => (x.1, x.2.1))
+        == (specVector vfmt fb d.toks).map (fun x => (x.1, x.2.weight)))
+  s!"(postings {" ".intercalate posts}) (docs {" ".intercalate vecs}) (model {showBool modelOk})"
 
 def handleFmt : List SExp → Option String
   | [.atom "wv", fmt, fb, .list toks] => do
@@ -260,6 +269,17 @@ def handle : List SExp → String
       match parseCfg w bl (.atom "0") (.atom "0") fs, ps.mapM (parsePosting w) with
       | some c, some ps => doSpec w c ps
       | _, _ => "bad-op"
+  | [.atom "tib", bl, comp, inl, fs, .list ps] =>
+    -- what `W3TermInfo.from_bytes(ti.to_bytes())` shows for the term info of a written list
+    match parseCfg docWire bl comp inl fs, ps.mapM (parsePosting docWire) with
+    | some c, some ps =>
+      match writeTerm c ps with
+      | .error e => s!"err {e.name}"
+      | .ok (_, ti) =>
+        match ti.throughBytes c.f32 with
+        | .error e => s!"err {e.name}"
+        | .ok t => showTI docWire t
+    | _, _ => "bad-op"
   | [.atom "l2b", n] =>
     match SExp.opt? SExp.nat? n with
     | some l => toString (lengthToByte l)
